@@ -26,7 +26,10 @@ def run_impl(case):
         return dict(error=f'define:{type(e).__name__}', events=[], result=None)
     loop = asyncio.new_event_loop()
     try:
-        wc = cls(loop=loop)
+        try:
+            wc = cls(loop=loop)         # (the spec, and so the outline, is built when the first instance is made)
+        except Exception as e:  # noqa
+            return dict(error=f'define:{type(e).__name__}', events=[], result=None)
         try:
             wc.execute()
             err = None
